@@ -3,7 +3,7 @@
 scratch copy of /repo's analysed sources (never /repo itself), and write
 seeded/MATRIX.json: which checks report which change.
 
-usage: tools/seed_matrix.py [--jobs N] [--only ID_PREFIX] [--src DIR]   (DIR: take <id>/patch.diff from DIR instead of seeded/)
+usage: tools/seed_matrix.py [--jobs N] [--only ID_PREFIX] [--src DIR] [--out FILE.json]   (DIR: take <id>/patch.diff from DIR instead of seeded/)
 """
 import json
 import re
@@ -54,7 +54,7 @@ def one(args):
 
 
 def main(argv):
-    jobs, only, src = 8, None, os.path.join(VERIF, 'seeded')
+    jobs, only, src, outf = 8, None, os.path.join(VERIF, 'seeded'), None
     i = 0
     while i < len(argv):
         if argv[i] == '--jobs':
@@ -63,6 +63,8 @@ def main(argv):
             only = argv[i + 1]; i += 2
         elif argv[i] == '--src':
             src = argv[i + 1]; i += 2
+        elif argv[i] == '--out':
+            outf = argv[i + 1]; i += 2
         else:
             i += 1
     work = []
@@ -75,6 +77,8 @@ def main(argv):
     for sid in sorted(res):
         r = res[sid]
         print('%-8s %s' % (sid, 'ERROR ' + r['error'] if 'error' in r else ' '.join('%s[%s]' % (p, ','.join(v['rules'])) for p, v in sorted(r.items())) or 'NONE'))
+    if outf:
+        json.dump(res, open(outf, 'w'), indent=1, sort_keys=True)
     if not only and src == os.path.join(VERIF, 'seeded'):
         json.dump(res, open(os.path.join(src, 'MATRIX.json'), 'w'), indent=1, sort_keys=True)
     return 0
